@@ -23,6 +23,48 @@ class NamelessTZ(datetime.tzinfo):
         return datetime.timedelta(0)
 
 
+class RuleTZ(datetime.tzinfo):
+    """a PEP 495 zone with one daylight period: offset `dst` (minutes) for UTC instants in [start, end), `std`
+    otherwise; wall times of the repeated hour are told apart by `fold`"""
+
+    def __init__(self, std, dst, start, end, names):
+        self.std, self.dst_, self.start, self.end, self.names = std, dst, start, end, names
+
+    def _valid(self, off, u):
+        return (off == self.dst_) == (self.start <= u < self.end)
+
+    def _off(self, dt):
+        if dt is None:
+            return self.std
+        naive = dt.replace(tzinfo=None, fold=0)
+        cands = [off for off in sorted({self.std, self.dst_}, reverse=True)
+                 if self._valid(off, naive - datetime.timedelta(minutes=off))]
+        if len(cands) == 2:
+            return cands[dt.fold]          # repeated hour: fold 0 = first pass (earlier instant, larger offset)
+        if len(cands) == 1:
+            return cands[0]
+        lo, hi = sorted((self.std, self.dst_))
+        return lo if dt.fold == 0 else hi    # skipped hour
+
+    def utcoffset(self, dt):
+        return datetime.timedelta(minutes=self._off(dt))
+
+    def dst(self, dt):
+        return datetime.timedelta(minutes=self._off(dt) - self.std)
+
+    def tzname(self, dt):
+        return self.names[0] if self._off(dt) == self.std else self.names[1]
+
+    def fromutc(self, dt):
+        u = dt.replace(tzinfo=None)
+        off = self.dst_ if self.start <= u < self.end else self.std
+        other = self.std if off == self.dst_ else self.dst_
+        local = u + datetime.timedelta(minutes=off)
+        u2 = local - datetime.timedelta(minutes=other)
+        fold = 1 if (other != off and self._valid(other, u2) and u2 < u) else 0
+        return local.replace(tzinfo=self, fold=fold)
+
+
 def ty(k, len=-1, scale=-1, valid=(), req=False):
     return {"k": k, "len": len, "scale": scale, "valid": [cps(v) for v in valid], "req": bool(req)}
 
